@@ -390,6 +390,11 @@ def strings_equal(a, b):
         z = S.structural_eq(a, b, eq_z3)
         if z is not None:
             return z
+        # outside the rule's side conditions: an abstract equality; a counter-model of it is
+        # believed only after both sides have been evaluated on the structure under that model
+        z = eq_z3(a, b)
+        S.EQ_REG[z.get_id()] = (z, a, b)
+        return z
     return eq_z3(a, b)
 
 
